@@ -78,7 +78,7 @@ Proof. exact assert_domain_complete_localhost. Qed.
     form the run-time oracle evaluates) *)
 Theorem c01_boundary_is_label_suffix : forall h r,
   (h = r \/ exists p, h = p ++ DOT :: r) <-> prefix beq (dom_labels r) (dom_labels h) = true.
-Proof. intros h r. split; [exact (boundary_labels h r)|exact (labels_boundary h r)]. Qed.
+Proof. exact boundary_iff_labels. Qed.
 
 (** (6) the run-time oracle [c01_ok] is true on every answer of the model, for the four providers of
     the correspondence run *)
